@@ -1,6 +1,7 @@
 package props
 
 import (
+	"bufio"
 	"bytes"
 	"fmt"
 	"os"
@@ -9,6 +10,7 @@ import (
 	"strings"
 	"syscall"
 
+	"github.com/yuin/goldmark/renderer/html"
 	"github.com/yuin/goldmark/text"
 	"github.com/yuin/goldmark/util"
 
@@ -95,6 +97,26 @@ type utilFn struct {
 
 var c12UtilFns = []utilFn{
 	{"EscapeHTML", func(b []byte) { util.EscapeHTML(b) }},
+	{"html.IsDangerousURL", func(b []byte) { html.IsDangerousURL(b) }},
+	{"html.DefaultWriter", func(b []byte) {
+		var buf bytes.Buffer
+		w := bufio.NewWriter(&buf)
+		html.DefaultWriter.Write(w, b)
+		html.DefaultWriter.RawWrite(w, b)
+		html.DefaultWriter.SecureWrite(w, b)
+	}},
+	{"util.misc", func(b []byte) {
+		util.TrimLeftSpaceLength(b)
+		util.TrimRightSpaceLength(b)
+		util.TrimLeftLength(b, []byte(" a"))
+		util.TrimRightLength(b, []byte(" a"))
+		util.FirstNonSpacePosition(b)
+		util.FindClosure(b, '<', '>', false, false)
+		util.StringToReadOnlyBytes(util.BytesToReadOnlyString(b))
+		util.DoFullUnicodeCaseFolding(b)
+		util.IsEscapedPunctuation(b, 0)
+		util.ReadWhile(b, [2]int{0, len(b)}, util.IsSpace)
+	}},
 	{"UnescapePunctuations", func(b []byte) { util.UnescapePunctuations(b) }},
 	{"ResolveNumericReferences", func(b []byte) { util.ResolveNumericReferences(b) }},
 	{"ResolveEntityNames", func(b []byte) { util.ResolveEntityNames(b) }},
@@ -373,6 +395,9 @@ func c12StructuredDocs(quick bool) [][]byte {
 		add(d)
 	}
 	for _, d := range SlotDocs() {
+		add(d)
+	}
+	for _, d := range URLShapeDocs() {
 		add(d)
 	}
 	// the same documents with CR LF line endings (model documents, tables, tab/space code mixtures, leak-prone documents)
